@@ -293,7 +293,7 @@ def dump_heap(ctl, root, init_tasks):
         init = [nid(x) for x in (init_tasks if o is root else xi.init_tasks)]
         task = None if xi.task is None else nid(xi.task)
         jobof = None if xi.job is None else ctl.jobidx.get(id(xi.job), -1)
-        nodes[i] = dict(fields=fields, pre=pre, init=init, task=task, jobof=jobof, loaded=bool(xi.loaded))
+        nodes[i] = dict(fields=fields, pre=pre, init=init, task=task, jobof=jobof, loaded=bool(xi.loaded), falsy=not bool(o))
         i += 1
     return nodes
 
@@ -328,7 +328,9 @@ def run_workload(w):
     os.environ.pop("XPM_WORKDIR", None)
     from experimaestro import experiment
     from experimaestro.scheduler.base import JobDependency, FailedExperiment
-    from experimaestro.tokens import ProcessCounterToken, CounterTokenDependency
+    from experimaestro.tokens import ProcessCounterToken, CounterToken, CounterTokenDependency
+    from experimaestro.ipc import ipcom
+    from pathlib import Path as _P
     import vpk_sched as V
 
     ctl = CTL
@@ -344,13 +346,19 @@ def run_workload(w):
     njobs = len(w["jobs"])
     ctl.jobs = [None] * njobs
     wd = tempfile.mkdtemp(prefix="xpmverif-sched-", dir=w.get("scratch"))
-    trace = dict(steps=[], deps=[None] * njobs, dup=[None] * njobs, heaps=[None] * njobs, refused={}, skipped={}, error=None,
+    trace = dict(steps=[], deps=[None] * njobs, dup=[None] * njobs, heaps=[None] * njobs, refused={}, skipped={}, falsy={}, error=None,
                  ended="schedule")
+    filetokens = []
     try:
         xp = experiment(wd, "x", port=-1)
         xp.__enter__()
         ctl.loop = xp.central.loop
-        tokens = [ProcessCounterToken(n) for n in w["tokens"]]
+        # "file": the file-based CounterToken (one directory per token) used within this one scheduler;
+        # its acquire/release are separate code from ProcessCounterToken, the scheduler sees the same thing
+        kinds = w.get("tokkind") or ["proc"] * len(w["tokens"])
+        tokens = [CounterToken(f"v{i}", _P(wd) / "_tokens" / f"t{i}", n) if kinds[i] == "file" else ProcessCounterToken(n)
+                  for i, n in enumerate(w["tokens"])]
+        filetokens[:] = [t for t in tokens if isinstance(t, CounterToken)]
         tokidx = {id(t): i for i, t in enumerate(tokens)}
         values, objs = [None] * njobs, [None] * njobs
         wait = dict(status="none", thread=None, final=False)
@@ -382,6 +390,7 @@ def run_workload(w):
                 cfg.add_dependencies(tokens[t].dependency(c))
             ctl.plan = dict(index=j, code=spec["code"], marker=spec.get("marker", False), adopt=spec.get("adopt"))
             objs[j] = cfg
+            trace["falsy"][j] = not bool(cfg)     # a task object whose truth value is False (__len__ == 0)
             if w.get("dump_heaps"):
                 trace["heaps"][j] = dict(nodes=dump_heap(ctl, cfg, init),
                                          explicit=[ctl.jobidx.get(id(d.origin), -1) for d in cfg.__xpm__.dependencies
@@ -497,5 +506,10 @@ def run_workload(w):
     except BaseException as e:  # noqa
         trace["error"] = "exception: " + "".join(traceback.format_exception(type(e), e, e.__traceback__))[-1500:]
     finally:
+        for t in filetokens:
+            try:
+                ipcom().fsunwatch(t.watcher)
+            except Exception:  # noqa
+                pass
         shutil.rmtree(wd, ignore_errors=True)
     return trace
